@@ -33,6 +33,10 @@ RULE_S = ("speed/grade model: the four bundled vehicle models through Interpolat
           "every speed-unit x grade-unit pair of the declaration, bounds written in the model's units, judged at the "
           "CONFIGURED nodes / bounds through consume_energy over one distance unit; NESTED cases: interpolate over a coarse "
           "interpolate over smartcore, the table expected at the outer nodes is the declared (inner interpolated) model; "
+          "CACHE cases (float_cache_policy enabled): key precisions coarser / finer than the grid step, every node must "
+          "return the UNCACHED underlying value (the cache must not influence the table); one cached record queried with a "
+          "sequence of small negative / positive grades and speeds: each answer is the uncached answer of the first input "
+          "with the same round-half-away-from-zero key; "
           "the model's predictor is the underlying random forest sampled by the harness exactly as `new` samples it; "
           "bit-exact with the FN model (M line); S = QN checker: the axes have `bins` increasing points from the lower to "
           "the upper bound, never Err, value at the clamped point between the 4 surrounding underlying values, equal to the "
